@@ -19,7 +19,7 @@ from .common import Ctx, VERIF
 from . import kalman_shared as ks
 
 DRIVERS = ["C03"]
-EXTRA_PROPS = ['KalmanBridge']   # refinement bridge from the executable QMat model to the matrix-level theorems (audited with this check)
+EXTRA_PROPS = ['KalmanBridge', 'KalmanVariants', 'KalmanObject']   # refinement bridge from the executable QMat model to the matrix-level theorems (audited with this check)
 LEVEL = "proof"
 MANIFEST = {
     "category": "proof",
@@ -34,14 +34,14 @@ MANIFEST = {
              "equations (own coefficients, log-variables) on the smoothed databoxes, re-simulates with Simultaneous.simulate and checks "
              "deviation mode on the real code."),
     "design": "7/C08",
-    "note": ("The abstract Mathlib recursion and the QMat model are two transcriptions of the same formulas (no refinement proof); the output "
+    "note": ("The QMat model is tied to the abstract Mathlib recursion by Props/KalmanBridge.lean (exact flags, F*Fi = 1), KalmanVariants and KalmanObject; the update and smoother steps are not refined operation by operation; the output "
              "mapping through Ua, exp of log-variables and the data intake are covered by the end-to-end oracle, not by theorems. "
              "Tolerance 1e-8 relative on generator-controlled instances."),
     "technique": "Lean 4 proof over Mathlib matrices + executable rational model + differential correspondence + equation-residual oracle",
 }
 ASSUMPTIONS = [
     "class-T comparison: |impl - model| <= 1e-8*(1+scale) on instances with cond(F_t) <= 1e6; identity residuals <= 1e-8*(1+scale)",
-    "the QMat model and the abstract Mathlib recursion of Lemmas/Kalman.lean are two transcriptions of the same formulas (no refinement proof)",
+    "the QMat model is tied to the abstract Mathlib recursion of Lemmas/Kalman.lean by Props/KalmanBridge.lean (exact runtime flags sound, F*Fi = 1); update and smoother steps are not refined operation by operation (two transcriptions of the same formulas, compared on every case)",
     "output mapping (Ua, log/exp, databox intake) is validated end-to-end only",
 ]
 
@@ -321,7 +321,9 @@ def oracle_e2e(ctx: Ctx, case):
             key = ks.var_key(f"x{j}", mc["logx"][j])
             if not iclose(ks.series_values(o_d[step], key, span), ks.series_values(o_l[step], key, span), 1e-7):
                 fail(ctx, "e2e-deviation", cw, f"{step}[{key}] differs between deviation and level mode")
-    if not iclose([i_d["neg_log_likelihood"]], [i_l["neg_log_likelihood"]], 1e-7):
+    if case["rescale"] and not (min(i_d["var_scale"], i_l["var_scale"]) > 1e-12):
+        ctx.count("e2e:zero_variance_scale_likelihood_not_compared")      # exact fit: log(var_scale) is not defined
+    elif not iclose([i_d["neg_log_likelihood"]], [i_l["neg_log_likelihood"]], 1e-7):
         fail(ctx, "e2e-deviation", cw, f"likelihood differs: {i_d['neg_log_likelihood']} vs {i_l['neg_log_likelihood']}")
 
 
